@@ -58,6 +58,9 @@ var c18Templates = []string{
 	"package t\n\n@goht C() {\n\t.c{a: \"b\"} x\n}\n",
 	"package t\n\n@goht Bad() {\n%p not indented\n}\n", // does not compile
 	"package t\n\n@goht Bad2() {\n\t%p x\n",            // unterminated
+	// accepted by the template parser, but the generated Go is not Go (the gofmt step of the command fails)
+	"package t\n\nvar broken = = 1\n\n@goht Bad3() {\n\t%p x\n}\n",
+	"package t\n\n@goht Bad4(s string) {\n\t%p= s +\n}\n",
 }
 
 type treeSpec struct {
@@ -145,7 +148,7 @@ func (t treeSpec) write(root string, base time.Time) {
 
 func c18(c *Ctx) {
 	c.Rep.TieObs = []string{"O-gen: the directory tree after each run of the real `goht generate` binary (names, contents, modification times)"}
-	c.Rep.Rule = "random directory trees (nested dirs, vendor / node_modules / dot / underscore / --skip-dirs directories at several depths, orphaned outputs, templates that do not compile, unrelated files, up-to-date and stale outputs, also by less than a second within one wall-clock second) x flag sets (--force, --keep, --skip-dirs, --max-workers 1 / 2 / 3 / 8, --path spelled eight ways: ., ./, absolute, with a trailing separator, with /., with a doubled separator, through .., relative from the parent) x histories of two or three runs with edits, touches and deletions in between; plus one tree with hundreds of templates; oracle: the tree after each run against the specification computed with the real compiler + gofmt; distinct = distinct (tree, flags, history); non-trivial = the run had at least one stale template"
+	c.Rep.Rule = "random directory trees (nested dirs, vendor / node_modules / dot / underscore / --skip-dirs directories at several depths, orphaned outputs, templates that do not compile (rejected by the template parser; accepted but with generated code that gofmt rejects), unrelated files, up-to-date and stale outputs, also by less than a second within one wall-clock second) x flag sets (--force, --keep, --skip-dirs, --max-workers 1 / 2 / 3 / 8, --path spelled eight ways: ., ./, absolute, with a trailing separator, with /., with a doubled separator, through .., relative from the parent) x histories of two or three runs with edits, touches and deletions in between; plus one tree with hundreds of templates; oracle: the tree after each run against the specification computed with the real compiler + gofmt; distinct = distinct (tree, flags, history); non-trivial = the run had at least one stale template"
 	goht := filepath.Join(c.Build, "goht")
 	if !fileExists(goht) {
 		c.mismatch("setup", "", "goht binary missing", "", true)
